@@ -230,6 +230,10 @@ func runC15(p *engine.Prog, r *engine.Report) {
 						if engine.CalleeObj(x.Common()) != nil && engine.CalleeObj(x.Common()).Name() == "WriteString" {
 							return true
 						}
+						// fmt.Fprint*(h, ...): formatted straight into the hasher
+						if o := engine.CalleeObj(x.Common()); o != nil && o.Pkg() != nil && o.Pkg().Path() == "fmt" && strings.HasPrefix(o.Name(), "Fprint") {
+							return true
+						}
 						if walk(x) {
 							return true
 						}
@@ -331,11 +335,18 @@ func runC15(p *engine.Prog, r *engine.Report) {
 		} else {
 			ht := fi.T(hashCall).S
 			var seenMap *ssa.MakeMap
+			seenIsSet := false
 			for _, in := range allInstrs(translator) {
 				if mm, ok := in.(*ssa.MakeMap); ok {
 					if mt, ok := mm.Type().Underlying().(*types.Map); ok {
 						if b, ok := mt.Elem().Underlying().(*types.Basic); ok && b.Kind() == types.Bool {
 							seenMap = mm
+						}
+						// a set written as map[uint64]struct{}
+						if st, ok := mt.Elem().Underlying().(*types.Struct); ok && st.NumFields() == 0 {
+							if kb, ok := mt.Key().Underlying().(*types.Basic); ok && kb.Kind() == types.Uint64 {
+								seenMap, seenIsSet = mm, true
+							}
 						}
 					}
 				}
@@ -348,13 +359,16 @@ func runC15(p *engine.Prog, r *engine.Report) {
 					if strings.HasPrefix(g, "¬true("+fi.T(seenMap).S+"["+ht+"]") {
 						okGuard = true
 					}
+					if seenIsSet && strings.HasPrefix(g, "¬has("+fi.T(seenMap).S+"["+ht+"]") {
+						okGuard = true
+					}
 				}
 				if !okGuard {
 					probs = append(probs, "the append is not conditional on 'hash not yet seen'")
 				}
 				marked := false
 				for _, rr := range *seenMap.Referrers() {
-					if mu, ok := rr.(*ssa.MapUpdate); ok && fi.T(mu.Key).S == ht && isConstBool(mu.Value, true) && engine.InstrDominates(mu, app) {
+					if mu, ok := rr.(*ssa.MapUpdate); ok && fi.T(mu.Key).S == ht && (isConstBool(mu.Value, true) || seenIsSet) && engine.InstrDominates(mu, app) {
 						marked = true
 					}
 				}
